@@ -155,6 +155,7 @@ CLAIMED["C09"] = ("proof",
     "The client as a labelled transition system in Gallina (Client/Model.v: callers with program counters, receive loop with container recursion and gzip, response and hint "
     "tables, send lock, rendezvous channels, wire log): for EVERY label sequence (any number of callers, any interleaving, any server answer order / containers / gzip) each "
     "completed call returned the value dispatched for its own, unique msg_id, which is the body of a frame the server injected; vector values only for calls that declared hints. "
+    "The key under which the receive loop looks up a message's decoder hints (reqMsgIDOf) is modelled at byte level (TL/ReqId.v) and proved to be the req_msg_id of every result, plain or packed as a whole, and 0 for everything else (C09_hint_key_*); run against the real function on bodies of every shape. "
     "Tied to the code by trace validation: the real client built with -tags verif runs under a controlled scheduler (yield hooks at the model's step boundaries) against the "
     "in-process reference server; every observed trace must be accepted by the extracted step with equal projections; direct oracles for wrong answers, process death, stalls.",
     "DESIGN.md section 8 (C09-C11, C16: plan) and section 11.4 / 11.6 (as built)",
@@ -270,7 +271,7 @@ def main():
         json.dump(m, f, indent=1)
 
 
-HOOK_COMMITS = ["8cc65cc", "33a3c78", "794403c", "a317da0", "f05915b", "501c1c7", "51ccb51", "f886761", "ff3373d", "487aec0"]
+HOOK_COMMITS = ["8cc65cc", "33a3c78", "794403c", "a317da0", "f05915b", "501c1c7", "51ccb51", "f886761", "ff3373d", "487aec0", "889691f"]
 
 if __name__ == "__main__":
     main()
